@@ -107,10 +107,9 @@ func (sb *SampleBlock) Populate(ctx context.Context, eds eds.Accessor) error {
 
 func (sb *SampleBlock) UnmarshalFn(root *share.AxisRoots) UnmarshalFn {
 	return func(cntrData, idData []byte) error {
-		if !sb.Container.IsEmpty() {
-			return nil
-		}
-
+		// NOTE: data is verified even if the Block is already populated. The hasher accepts whatever
+		// this function accepts, and the accepted bytes are handed to every other requester of the
+		// same CID, which unmarshals them on its own and trusts them to be valid.
 		sid, err := shwap.SampleIDFromBinary(idData)
 		if err != nil {
 			return fmt.Errorf("unmarhaling SampleID: %w", err)
